@@ -9,7 +9,7 @@ from .avm.engine import Engine, HarnessError, Outcome
 from .avm.sym import Bounds, SymAVM
 from .avm.values import Bs, Ob, U, b_or
 from .common import from_json, to_json
-from .teal.parse import TealSyntaxError, check_program, parse
+from .teal.parse import TealSyntaxError, blocking_complaints, check_program, parse
 from . import tv, tvjob
 
 
@@ -98,7 +98,7 @@ def diff_job(job: Dict[str, Any]) -> Dict[str, Any]:
     except TealSyntaxError as e:
         out["complaints"] = ["unparsable: %s" % e]
         return out
-    out["complaints"] = check_program(pa, mode) + check_program(pb, mode)
+    out["complaints"] = blocking_complaints(pa, mode) + blocking_complaints(pb, mode)
     if out["complaints"]:
         out["teal"] = ta + "\n=====\n" + tb
         return out
